@@ -72,14 +72,16 @@ Definition optimize (fs : list rule) : list rule :=
   sort_by_id (fused ++ neg ++ single).
 
 (* NetworkFilterList::optimize: only rules held by a single bucket (Arc::try_unwrap succeeds) are
-   handed to the optimizer; the others are appended unchanged *)
+   handed to the optimizer; the others are appended unchanged, and the bucket is sorted by id again
+   (since /repo e89168f: before, the shared rules stayed at the end, and the order in which
+   equal-priority redirect rules were found depended on optimisation) *)
 Definition occurrences (m : fmap) (i : N) : nat :=
   length (filter (fun kb => existsb (fun f => N.eqb (rid f) i) (snd kb)) m).
 Definition fl_optimize (m : fmap) : fmap :=
   map (fun kb =>
          let uniq := filter (fun f => Nat.eqb (occurrences m (rid f)) 1) (snd kb) in
          let shared := filter (fun f => negb (Nat.eqb (occurrences m (rid f)) 1)) (snd kb) in
-         (fst kb, (if Nat.ltb 1 (length uniq) then optimize uniq else uniq) ++ shared)) m.
+         (fst kb, sort_by_id ((if Nat.ltb 1 (length uniq) then optimize uniq else uniq) ++ shared))) m.
 
 (* Blocker::optimize: every list but removeparam *)
 Definition blocker_optimize (b : blocker) : blocker :=
